@@ -80,8 +80,11 @@ def runner_spec():
         return [('activations-equal-posts', z3.And(ta == g['g_posts'], ta >= 0)),
                 ('never-more-than-requested', z3.Implies(n >= 1, ta <= n)),
                 ('runs-exactly-while-postings-remain', flag == z3.And(z3.Not(g['g_cancelled']), z3.Or(n == 0, ta < n))),
-                ('before-first-post', z3.Implies(g['g_posts'] == 0, z3.And(deferred == r['d0'], g['g_now'] == c.pyghost['t0']))),
-                ('after-a-post', z3.Implies(g['g_posts'] >= 1, z3.And(deferred, g['g_now'] == g['g_last_post_time']))),
+                ('clock-before-first-post', z3.Implies(g['g_posts'] == 0, g['g_now'] == c.pyghost['t0'])),
+                ('clock-after-a-post', z3.Implies(g['g_posts'] >= 1, g['g_now'] == g['g_last_post_time'])),
+                # the code this sidecar was written for re-uses its parameter `deferred` as the "wait on this pass" flag
+                ('wait-flag-before-first-post', z3.Implies(g['g_posts'] == 0, deferred == r['d0']), ('if-assigned:deferred',)),
+                ('wait-flag-after-a-post', z3.Implies(g['g_posts'] >= 1, deferred), ('if-assigned:deferred',)),
                 ('right-queue-kind', g['g_kinds_ok']),
                 ('request-unchanged', z3.And(n == r['n'], p == r['period'], n >= 0, p > 0))]
 
